@@ -49,10 +49,15 @@ impl<'a> Wit<'a> {
             }
             9 if self.rich => { let (t, h) = self.ty(depth - 1, scope, false, res_ok); (format!("list<{t}, {}>", 1 + self.r.below(4)), h) }
             10 if self.rich => {
-                if self.r.chance(1, 3) { ("stream".into(), false) } else { ("stream<u8>".into(), false) }
+                // stream payloads: absent, primitive, named, or an ANONYMOUS compound type first met at this point
+                // (wit-component rejects exactly `stream<char>`)
+                if self.r.chance(1, 4) { ("stream".into(), false) } else {
+                    let (t, h) = self.ty(depth - 1, scope, false, res_ok);
+                    if t == "char" { ("stream<u8>".into(), false) } else { (format!("stream<{t}>"), h) }
+                }
             }
             11 if self.rich => {
-                if self.r.chance(1, 3) { ("future".into(), false) } else { let (t, h) = self.ty(0, scope, false, false); (format!("future<{t}>"), h) }
+                if self.r.chance(1, 4) { ("future".into(), false) } else { let (t, h) = self.ty(depth - 1, scope, false, res_ok); (format!("future<{t}>"), h) }
             }
             12 if self.rich => ("error-context".into(), false),
             _ => (self.r.pick(PRIMS).to_string(), false),
@@ -244,7 +249,12 @@ impl<'a> Wat<'a> {
                 _ => format!("(result {} (error {}))", self.valty(depth - 1), self.valty(depth - 1)),
             },
             6 => format!("(list {} {})", self.valty(depth - 1), 1 + self.r.below(5)),
-            _ => match self.r.below(3) { 0 => "(stream u8)".into(), 1 => "(future string)".into(), _ => "error-context".into() },
+            _ => match self.r.below(6) {
+                0 => "(stream u8)".into(), 1 => "(future string)".into(), 2 => "error-context".into(),
+                3 => format!("(stream {})", self.valty(depth - 1)).replace("(stream char)", "(stream u8)"),
+                4 => format!("(future {})", self.valty(depth - 1)),
+                _ => "(stream)".into(),
+            },
         }
     }
     /// the body of a type definition that is about to be named by an import / export
@@ -398,6 +408,7 @@ fn fixed_cases() -> Vec<(String, String)> {
         wit("package test:gen@1.2.0;\ninterface types { record r { a: u8, b: string } type t = r; resource res { constructor(x: u32); m: func() -> r; s: static func(a: borrow<res>) -> res; } enum e { x, y } }\ninterface api { use types.{r, res, e as ee}; f: func(x: r, y: res) -> result<ee, string>; }\ninterface third { use api.{r}; g: func() -> list<r>; }\nworld w { import api; import third; use types.{t}; import h: func(x: t); export api; export k: func() -> option<u8>; }\n"),
         wit("package test:gen;\ninterface i0 { type fl = list<u8, 4>; type st = stream<u8>; type fu = future<string>; type ec = error-context; flags fg { a, b } variant v { x, y(u8), z(list<string>) } f: async func(x: fl) -> st; g: func(a: fu, b: ec, c: fg, d: v) -> tuple<u8, char>; }\nworld w { import i0; export i0; export h: async func() -> result; }\n"),
         wit("package test:gen@1.0.0;\npackage dep:other@0.2.0 { interface types { resource r { m: func(); } record t { a: u8 } } interface types2 { use types.{r, t}; f: func(x: borrow<r>) -> t; } }\ninterface i0 { use dep:other/types@0.2.0.{r, t as tt}; resource r2 { constructor(a: r); } f: func(x: r, y: tt) -> r2; }\nworld w { import dep:other/types2@0.2.0; import i0; use i0.{r2}; use dep:other/types@0.2.0.{r as rr}; resource wr; import k: func(a: r2, c: rr); export i0; export m: func() -> r2; }\n"),
+        wit("package test:gen;\ninterface i0 { record rec { a: u8 } f1: func(a: stream<list<u8>>) -> stream<tuple<u32, string>>; f2: func(a: future<list<string>>, b: stream<rec>, c: future<option<rec>>) -> future<result<u8, string>>; f3: async func(a: list<list<u8>, 3>, b: stream<string>, c: stream<bool>) -> list<stream<u8>>; f4: func(a: stream<option<u16>>, b: future<tuple<rec, rec>>) -> stream<result<rec>>; f5: func(a: error-context, b: list<error-context, 2>) -> option<future<stream<list<u8, 4>>>>; }\nworld w { import i0; export i0; export g: func(a: stream<list<u8>>) -> future<list<u32>>; import h: async func(a: future<tuple<u8, list<char>>>) -> stream<option<string>>; }\n"),
         // diamond: two interfaces use the same type of a third, a fourth uses it through both
         wit("package test:gen;\ninterface base { record p { x: u32 } resource h; }\ninterface left { use base.{p, h}; lf: func(a: p) -> h; }\ninterface right { use base.{p as q, h as hh}; rf: func(a: q, b: borrow<hh>); }\ninterface top { use left.{p}; use right.{q, hh}; tf: func(a: p, b: q) -> hh; }\nworld w { import top; export left; export right; }\n"),
         wat("(component (type $t' (record (field \"a\" u8))) (import \"t\" (type $t (eq $t'))) (import \"f\" (func $f (param \"x\" $t) (result $t))) (export \"g\" (func $f)) (export \"t2\" (type $t)))"),
